@@ -14,6 +14,12 @@ int ng_reserve(void);
 void ng_adopt(int id);
 void ng_thread_end(void);
 void ng_park(int epfd);
+void ng_park_at(int kind, const void* addr); /* kind 1: before locking mutex addr; 2: thread start */
+int ng_kind(int id);
+const void* ng_addr(int id);
+void ng_set_fine(int id, int on);
+int ng_is_fine(void);
+int ng_mutex_free(const void* mutex);
 int ng_is_parked(int id);
 int ng_has_exited(int id);
 int ng_epfd(int id);
